@@ -36,6 +36,50 @@ STRENGTHENED = {
     'C18-c18-m2': 'a session over constrained sockets (4 KiB buffers, slow reader) in SessionSame',
     'C19-c19-m3': 'deep-queue histories (300 / 1000 packets parked for one pair)',
     'C20-c20-m2': 'an unplugged device: after USBErrorNoDevice the descriptor reads of the fake backend fail too',
+    # ---- round 4 (harder changes: boundary values, state across operations / reconnects, async-only, interleavings, rare parameters)
+    'C01-w4-c01-m1': 'outputs of several MiB with a multi-byte character straddling a multiple of 1 MiB (big_decode)',
+    'C01-w4-c01-m3': 'a decode=True command aborted in the middle of a character, then another decode=True command (also across close/connect)',
+    'C02-w4-c02-m1': 'payload lengths at exact multiples of 4 / 16 / 64 KiB',
+    'C02-w4-c02-m2': 'reported by C12: recovery with connect() alone (no close), wire traffic of the recovery connection judged by the frame clauses',
+    'C03-w4-c03-m1': 'corruption sweep repeated for every CNXN version word the device may announce',
+    'C04-w4-c04-m2': 'clause C04.FreshId: an OPEN never carries the id of an earlier OPEN of the history (refused OPENs are modelled)',
+    'C04-w4-c04-m3': 'reported by C12: the task is cancelled at every await of the scenario (async), everything put on the wire is judged',
+    'C05-w4-c05-m1': 'one signer object reused for several connects, GetPublicKey returning bytes / str / bytearray',
+    'C05-w4-c05-m2': 'reported by C12 and C13: a connect() ended by a cancellation / BaseException',
+    'C05-w4-c05-m3': 'auth_timeout_s None / 0 / small with a device that answers late',
+    'C06-w4-c06-m1': 'a stream kept open across 70 / 300 abandoned streams, its CLSE read by another operation',
+    'C06-w4-c06-m2': 'three-way overlap of FileSync operations in the schedule explorer, distinct results per thread',
+    'C06-w4-c06-m3': 'operations of a new connection next to a generator left over from the previous one (device ids restart)',
+    'C07-w4-c07-m2': 'reconnect (with and without close) to a peer with another maxdata between two pushes',
+    'C07-w4-c07-m3': 'reported by C06: overlapping pushes of different tasks',
+    'C08-w4-c08-m1': 'non-ASCII device paths; clause RequestPath (the request carries the UTF-8 bytes of the path and their count)',
+    'C09-w4-c09-m1': 'not reachable by a legal device for list/stat (the OKAY of the only request precedes its reply); reported by C10 on pushes',
+    'C09-w4-c09-m2': 'a list/stat aborted in mid-reply, then close/connect and the same operation again',
+    'C09-w4-c09-m3': 'non-ASCII and bytes device paths in list / stat / pull requests',
+    'C10-w4-c10-m1': 'read_timeout_s = 0 with a ticking clock while device WRITEs precede the OKAY',
+    'C10-w4-c10-m3': 'bytes device paths in rejected pulls',
+    'C11-w4-c11-m1': 'stall kind: a stream that only sends empty WRITEs to a command with a whole-command limit; AdbTimed models the limit',
+    'C11-w4-c11-m2': 'stall kind: an endless series of late CLSEs of unknown streams',
+    'C11-w4-c11-m3': 'the library\'s own TcpTransport / TcpTransportAsync on a virtual network (harness/vtcp.py) under the stall grid',
+    'C12-w4-c12-m1': 'fault kinds BrokenPipeError, plain OSError, USB transport errors',
+    'C12-w4-c12-m3': 'recovery to a peer that announces a smaller maxdata; C04.Maxdata judged on the recovery connection; AdbRecover.SessionParams',
+    'C13-w4-c13-m1': 'AdbApi models the streaming generator (handed out / first item requested); the first request is the operation',
+    'C13-w4-c13-m2': 'connect() ended by a BaseException (cancelled task) as a failure kind',
+    'C13-w4-c13-m3': 'close() whose transport close raises',
+    'C14-w4-c14-m2': 'explorer: repeated operations per thread and a failed first write overlapped by another open',
+    'C14-w4-c14-m3': 'late-reply sessions with a whole-command budget larger than the read timeout',
+    'C15-w4-c15-m1': 'a 70 KB message accepted one byte per call (more than 65536 write calls for one buffer)',
+    'C15-w4-c15-m2': 'a write failing at every index of a short-written buffer: the call raises or the peer has everything (AdbWriter.ResubmitStale)',
+    'C15-w4-c15-m3': 'short writes under scheduled concurrency with a preemption point at every bulk_write (AdbWriter.LockPerCall / Contiguous)',
+    'C16-w4-c16-m1': 'a peer announcing more than 1 MiB and a push that fills more than 1 MiB of the send buffer',
+    'C16-w4-c16-m2': 'reconnect without close while a zero-id packet / late packets are parked in the store',
+    'C16-w4-c16-m3': 'progress callbacks raising a BaseException in paired pull / push sessions',
+    'C17-w4-c17-m1': 'stored boundary keys: rr = 2^4096 mod n and n0inv with a leading zero byte',
+    'C18-w4-c18-m2': 'poll reads (timeout 0) in the contract spec and the loopback drivers',
+    'C19-w4-c19-m1': 'one queue 5000 (thorough: 20000) packets deep',
+    'C19-w4-c19-m2': 'the store is intact (the I/O manager asks it for the wrong pair); reported by C06: interleaved generators over streams with legacy zero ids',
+    'C19-w4-c19-m3': 'the store is intact (the async I/O manager skips the store check under the lock); reported by C06 schedule exploration',
+    'C20-w4-c20-m2': 'connect() with its own timeout, later calls with none / another one',
     'C03-c03-m1': 'corruption sweep also over a payload whose genuine checksum is 0 (all zero bytes) and over 0xFF bytes',
 }
 
